@@ -215,14 +215,21 @@ def sequence_checks(p1, sub2, f1, f2, lt, eq):
     return bad
 
 
-def make_o5(maxlen, alphabet):
+def make_o5(maxlen, alphabet, same_ev=False, rlen=None):
+    """same_ev: both packages carry the same epoch and version text (builds / respins of one version: what rules compare most), so the
+    release alone decides; releases may then be longer (rlen)"""
     def o5(en):
-        sub1, sub2 = en.flag("subclass1"), en.flag("subclass2")
+        sub1, sub2 = (en.flag("subclass1"), en.flag("subclass2")) if not same_ev else (False, en.flag("subclass2"))
+        shared = {}
 
         def pkg(tag, sub):
-            ep = sstr.fresh_str(en, "e" + tag, 1 + en.choice("elen" + tag, 2), "0123456789")
-            v = sstr.fresh_str_upto(en, "v" + tag, maxlen, alphabet)
-            r = sstr.fresh_str_upto(en, "r" + tag, maxlen, alphabet)
+            if same_ev and shared:
+                ep, v = shared["ep"], shared["v"]
+            else:
+                ep = sstr.fresh_str(en, "e" + tag, 1 + en.choice("elen" + tag, 2), "0123456789")
+                v = sstr.fresh_str_upto(en, "v" + tag, maxlen, alphabet, minlen=1 if same_ev else 0)
+                shared.update(ep=ep, v=v)
+            r = sstr.fresh_str_upto(en, "r" + tag, rlen or maxlen, alphabet, minlen=1 if same_ev else 0)
             return _mk(sub, (ep, v, r)), (ep, v, r)
         p1, f1 = pkg("1", sub1)
         p2, f2 = pkg("2", sub2)
@@ -266,6 +273,11 @@ def obligations(tier):
         Obligation("O5-packages", make_o5(2 if thorough else 1, ALPHABET), ["epoch-version-release", "trichotomy", "operators-agree", "max-min"],
                    desc="epoch > version > release composition; InstalledRpm operators; newest/oldest",
                    bounds={"epoch": "1-2 decimal digits", "version/release len": "<= %d" % (2 if thorough else 1), "alphabet": "UNIVERSE minus NUL"},
+                   stubs=stubs, encoded=enc[1:], budget_s=900 if thorough else 200, replay="pkg", check_sample=True),
+        Obligation("O5b-same-version-builds", make_o5(1, ALPHABET, True, 3 if thorough else 2), ["epoch-version-release", "trichotomy", "operators-agree", "max-min"],
+                   desc="two builds of one version (same epoch and version text), releases of different lengths incl. one continuing the other with a marker or separator: "
+                        "the release alone decides; operators, newest/oldest",
+                   bounds={"epoch": "1-2 decimal digits, shared", "version": "1 character, shared", "release len": "1-%d" % (3 if thorough else 2), "alphabet": "UNIVERSE minus NUL"},
                    stubs=stubs, encoded=enc[1:], budget_s=900 if thorough else 200, replay="pkg", check_sample=True),
     ]
 
